@@ -165,6 +165,10 @@ fn extract<'tcx>(tcx: TyCtxt<'tcx>, krate: &str) -> J {
                 o.set("reachable", J::Bool(eff.is_reachable(ldid)));
                 let sig = tcx.fn_sig(did).instantiate_identity().skip_norm_wip();
                 o.set("sig", J::s(format!("{:?}", sig)));
+                let sb = sig.skip_binder();
+                let ins: Vec<J> = sb.inputs().iter().map(|t| J::s(t.to_string())).collect();
+                o.set("inputs", J::Arr(ins));
+                o.set("output", J::s(sb.output().to_string()));
                 o.set("unsafe", J::Bool(sig.safety().is_unsafe()));
                 o.set("span", span_j(tcx, tcx.def_span(did)));
                 fns.push(o);
